@@ -1,4 +1,5 @@
 import SwcVerif.Props.C17
+import SwcVerif.Props.C17Gen
 #print axioms C17.init_inv
 #print axioms C17.greedy_step
 #print axioms C17.step_inv
@@ -7,3 +8,16 @@ import SwcVerif.Props.C17
 #print axioms C17.prim_step
 #print axioms C17.prim_minimal
 #print axioms C17.prim_attains
+#print axioms Py.maArgmin_spec
+#print axioms Py.unravelIndex_nat
+#print axioms RefineMst.maArgmin_eq
+#print axioms RefineMst.for1_step
+#print axioms RefineMst.mst_loop_refines
+#print axioms RefineMst.mst_loop_raises
+#print axioms C17.generated_mst_eq_model
+#print axioms C17.generated_mst_raises
+#print axioms C17.generated_spanning
+#print axioms C17.generated_branching_limit
+#print axioms C17.generated_greedy_step
+#print axioms C17.generated_prim_minimal
+#print axioms C17.generated_prim_attains
